@@ -287,6 +287,13 @@ def gen_map(rng, hostile=0.0, chronological=True, mode=None, version=None, tshif
             if ":" in l and rng.random() < 0.5:
                 l = src[0].strip("[]").rstrip("s") + l
             dst.insert(rng.randint(1, len(dst)), l)
+    if secs and alien and rng.random() < 0.2:
+        # lines built around words of /repo's CURRENT source (record keys, event / sample names, section names - lib/srctokens.py)
+        # in any section: a word the code begins to recognise somewhere is in the alphabet without being listed here
+        from .srctokens import extra_lines
+        for l in extra_lines(rng, rng.randint(1, 4)):
+            dst = rng.choice(secs)
+            dst.insert(rng.randint(1, len(dst)), l)
     for s in secs:
         lines += s + [""]
     return lines
